@@ -30,5 +30,41 @@ def dedup_suite(run, rng, har, drv, stats):
             run.report_failure(cls, "remove_duplicates(explicit=%d, %r) = %r, expected %r" % (e, ids, r, want), {"suite": "dedup", "case": l})
 
 
+HAND = [
+    # (manifest, files, must_be_rejected)
+    ("rule r\n  command = c\ninclude part.ninja\ninclude part.ninja\n", {"part.ninja": "build out: r\n"}, True),
+    ("rule r\n  command = c\nsubninja a.ninja\nsubninja b.ninja\n", {"a.ninja": "include common.ninja\n", "b.ninja": "include common.ninja\n",
+                                                                      "common.ninja": "build gen/version.h: r\n"}, True),
+    ("rule r\n  command = c\nv = ./out\ninclude part.ninja\nv = sub/../out\ninclude part.ninja\n", {"part.ninja": "build $v: r\n"}, True),
+    ("rule r\n  command = c\nbuild gen.h: r in1\nbuild x.c x.c gen.h: r in2\n", {}, True),
+    ("rule r\n  command = c\nbuild a.c | ./a.c gen.h b.c: r\nbuild gen.h: r\n", {}, True),
+    ("rule r\n  command = c\nbuild x.c x.c y.c: r\nbuild z: r y.c\n", {}, False),
+    ("rule r\n  command = c\ninclude part.ninja\n", {"part.ninja": "build out out | out: r\n"}, False),
+]
+
+
+def hand_suite(run, rng, har, drv, stats):
+    dedup_suite(run, rng, har, drv, stats)
+    lines = []
+    for text, files, rej in HAND:
+        l = "%s %s" % (hexs(b"build.ninja"), hexs(text.encode()))
+        for fn, sub in files.items():
+            l += " %s %s" % (hexs(fn.encode()), hexs(sub.encode()))
+        lines.append(l)
+    impl = run_lines([har, "load"], lines)
+    model = run_lines([drv, "load"], ["1 " + l for l in lines])
+    stats["handwritten_duplicate_cases"] = len(lines)
+    for (text, files, rej), a, m in zip(HAND, impl, model):
+        where = {"manifest": text, "files": files, "result": a[:300]}
+        if a != m:
+            run.tie("correspondence loader (handwritten duplicate-output cases)", dict(where, model=m[:300]))
+        if rej:
+            msg = unhexs(a[4:]).decode("utf-8", "replace") if a.startswith("err ") else ""
+            if "is already an output at" not in msg or msg.count(":") < 3:
+                run.report_failure(None, "two statements produce the same output but the manifest was not rejected citing both: %s" % a[:120], where)
+        elif not a.startswith("ok "):
+            run.report_failure(None, "an output repeated inside one statement was not accepted: %s" % a[:160], where)
+
+
 def main(tier, seed, replay=None):
-    return front_check(PROP, THEOREMS, tier, seed, extra_modules=["Model.All", "Proofs.EvalScope", "Proofs.EvalFiles", "Proofs.GraphDedup", "Proofs.GraphAddBuild", "Proofs.GraphLoad"], gen_kw=dict(dup_outputs=True, includes=True), replay=replay, extra_suites=dedup_suite, skip_include_scope=True)
+    return front_check(PROP, THEOREMS, tier, seed, extra_modules=["Model.All", "Proofs.EvalScope", "Proofs.EvalFiles", "Proofs.GraphDedup", "Proofs.GraphAddBuild", "Proofs.GraphLoad"], gen_kw=dict(dup_outputs=True, includes=True), replay=replay, extra_suites=hand_suite, skip_include_scope=True)
